@@ -208,8 +208,8 @@ Definition col_uninsert (col : option nat) (lines : list line) : list line :=
 (* scroll_util::rows_of + rotate_left(1) / rotate_right(1) on lines[..height] *)
 Definition rows_of (L : layer) : nat * list line :=
   let h := Z.to_nat (Z.max (l_h L) 0) in (h, resize_to (l_lines L) h []).
-Definition rot_left {A} (l : list A) : list A := match l with [] => [] | a :: t => t ++ [a] end.
-Definition rot_right {A} (l : list A) : list A := match rev l with [] => [] | a :: t => a :: rev t end.
+Definition rot_left {A} (l : list A) : list A := skipn 1 l ++ firstn 1 l.                                       (* slice::rotate_left(1) *)
+Definition rot_right {A} (l : list A) : list A := skipn (length l - 1) l ++ firstn (length l - 1) l.           (* slice::rotate_right(1) *)
 Definition l_scroll_up (L : layer) : layer :=
   let '(h, lines) := rows_of L in with_lines L (rot_left (firstn h lines) ++ skipn h lines).
 Definition l_scroll_down (L : layer) : layer :=
